@@ -286,7 +286,7 @@ PROPS = {
              'shards': {'quick': 16, 'thorough': 16}, 'driver_args': []},
         ],
         'exhaustive': {'quick': True, 'thorough': True},
-        'rule': 'exhaustive: each of the 143 statement templates (one per statement form of the reference grammar) in each of the 10 '
+        'rule': 'exhaustive: each of the 146 statement templates (one per statement form of the reference grammar) in each of the 10 '
                 'statement contexts; random: generated model programs of 2-11 top-level statements nested to depth 0-5 over the full '
                 'operator set, printed with minimal or redundant parentheses in three layouts (single blanks, rich trivia with comments '
                 'and line breaks, minimal spacing), block and single-statement bodies; the tree family compares the model tree with the '
@@ -303,7 +303,7 @@ PROPS = {
              'shards': {'quick': 16, 'thorough': 16}, 'driver_args': ['--nodedupe']},
         ],
         'exhaustive': {'quick': True, 'thorough': True},
-        'rule': 'exhaustive: every ordered pair of the 143 statement templates, concatenated at top level and inside a block body (20449 pairs, '
+        'rule': 'exhaustive: every ordered pair of the 146 statement templates, concatenated at top level and inside a block body (21316 pairs, '
                 'compared with the model pair by pair); random: sequences of 2-5 generated statements (all statement kinds, nested to depth '
                 '2) each parsed alone and then concatenated, at top level and inside a block; non-trivial = every case',
         'trusted_base': ['pipeline models (as C01/C02); tools/templates.txt'],
@@ -326,7 +326,7 @@ PROPS = {
              'shards': {'quick': 16, 'thorough': 16}, 'driver_args': []},
         ],
         'exhaustive': {'quick': False, 'thorough': False},
-        'rule': 'inputs without syntax diagnostics from: the 143 statement templates in 10 contexts with undeclared names and with a '
+        'rule': 'inputs without syntax diagnostics from: the 146 statement templates in 10 contexts with undeclared names and with a '
                 'prelude declaring them; the repository snippets; generated programs of the supported subset and of the wider grammar '
                 '(all operators, aliases, casts), each also with injected faults (top-level statements deleted, duplicated, swapped: '
                 'undeclared and duplicate names, wrong scope); token-level mutants of the snippets (1-2 tokens deleted, swapped, '
